@@ -273,6 +273,10 @@ def mkSrc? : List String → Option (Src × List String)
     let st ← int? st; let dt ← int? dt; let n ← nat? n
     if dt ≤ 0 then none
     else some (.cont ⟨st, dt, (List.range n).map Int.ofNat⟩, rest)
+  | "contv" :: st :: dt :: vals :: rest => do
+    let st ← int? st; let dt ← int? dt; let vals ← intList? vals
+    if dt ≤ 0 then none
+    else some (.cont ⟨st, dt, vals⟩, rest)
   | "ts" :: ts :: rest => do
     let ts ← intList? ts
     some (.ts (ts.zipIdx.map fun (t, i) => (t, (i : Int))), rest)
